@@ -441,8 +441,15 @@ def process_history_violation(prop, tier, verif_seed, rec, nworkers, rundir, rep
         d = _digests_in_one_process([fpath(j) for j in hist] + [target], rundir, "13")
         return d is not None and d.get(target) != alone
 
-    if not prefix or not differs(prefix):
+    if not prefix:
         return None
+    # long histories (thorough tier): the most recent 200 scenarios first, the whole history only if it is affordable
+    full = list(prefix)
+    prefix = full[-200:]
+    if not differs(prefix):
+        if len(full) == len(prefix) or len(full) > 600 or not differs(full):
+            return None
+        prefix = full
     # minimise the history (ddmin over the prefix, bounded)
     deadline = time.time() + float(budget.get("shrink_s", 60)) * 4
     hist = list(prefix)
